@@ -80,8 +80,9 @@ type parent struct {
 	keyed  map[string]int64  // outcome classes of the enumerated key-aware grid
 
 	builtPlugin string
-	plugTags    map[string]int64 // coverage cells of the enumerated plugin-reply family that ran
-	sessions    int64            // plugin processes started by children
+	plugTags    map[string]int64   // coverage cells of the enumerated plugin-reply family that ran
+	sessions    int64              // plugin processes started by children
+	ratios      map[string]float64 // scaling cases: CPU time at 4n over CPU time at n
 }
 
 const maxSameDeaths = 6
@@ -224,6 +225,12 @@ func (p *parent) merge(t *target, j job, e *childEnd, countEvals bool) {
 		for k, n := range s.Tags {
 			p.plugTags[k] += n
 		}
+	}
+	for k, v := range s.Ratios {
+		if p.ratios == nil {
+			p.ratios = map[string]float64{}
+		}
+		p.ratios[k] = v
 	}
 	p.sessions += s.Sessions
 	ts.ScryptMetered += s.ScryptCalls
@@ -500,6 +507,11 @@ func main() {
 			break
 		}
 	}
+	// scaling in the number of stanzas: one child per consumer, sequential inside
+	scaleT := targetByName("ManyStanzas")
+	for off, n := 0, scaleCount(); off < n; off += len(scaleShapes) {
+		units = append(units, unit{scaleT, job{Kind: "scale", From: off, To: min(off+len(scaleShapes), n)}})
+	}
 	// hostile plugin replies: one plugin process per case
 	plugT := targetByName("PluginReplies")
 	for off, n := 0, len(plugFamily()); off < n; off += 96 {
@@ -516,6 +528,13 @@ func main() {
 	})
 	p.bomGuard()
 	p.plugGuard()
+	p.mu.Lock()
+	r.Set("time_scaling_4x_input", p.ratios)
+	r.Count("scaling_cases_measured", int64(len(p.ratios)))
+	if len(p.ratios) < scaleCount() && len(p.best) == 0 {
+		r.Inconclusive("scaling family: %d of %d (shape, consumer) cases were measured", len(p.ratios), scaleCount())
+	}
+	p.mu.Unlock()
 	r.Count("quick_inputs", r.Evals())
 	p.keyedGuard()
 	if !p.limitOK {
@@ -562,8 +581,8 @@ func main() {
 	if p.builtPlugin != "" {
 		os.Remove(p.builtPlugin)
 	}
-	r.MinEvals = int64(len(targets)-1) * 15000
-	r.MinDistinct = (len(targets) - 1) * 8000
+	r.MinEvals = int64(len(targets)-2) * 15000
+	r.MinDistinct = (len(targets) - 2) * 8000
 	r.Finish()
 }
 
